@@ -1,7 +1,9 @@
 package drv
 
 import (
+	"crypto/sha512"
 	"crypto/x509"
+	"encoding/binary"
 	"github.com/google/go-tdx-guest/abi"
 	pb "github.com/google/go-tdx-guest/proto/tdx"
 	"github.com/google/go-tdx-guest/verify"
@@ -73,6 +75,28 @@ func loadCcel() ccelSample {
 	return ccelData
 }
 
+// logWithRtmr3 inserts one TCG_PCR_EVENT2 for CC measurement register 4 (RTMR3) right after the Spec ID event of the sample log and
+// returns the log together with the RTMR3 value it replays to: SHA-384(0^48 || digest).
+func logWithRtmr3(log []byte, rng *rand.Rand) ([]byte, []byte) {
+	// first event: TCG_PCClientPCREvent { pcrIndex u32, eventType u32, digest[20], eventSize u32, event[eventSize] }
+	first := 32 + int(binary.LittleEndian.Uint32(log[28:32]))
+	digest := gen.RandBytes(rng, 48)
+	data := []byte("verif: an event measured into RTMR3")
+	var ev []byte
+	ev = binary.LittleEndian.AppendUint32(ev, 4)          // CC MR index 4 = RTMR3
+	ev = binary.LittleEndian.AppendUint32(ev, 0x0000000d) // EV_IPL
+	ev = binary.LittleEndian.AppendUint32(ev, 1)          // one digest
+	ev = binary.LittleEndian.AppendUint16(ev, 0x000c)     // TPM_ALG_SHA384
+	ev = append(ev, digest...)
+	ev = binary.LittleEndian.AppendUint32(ev, uint32(len(data)))
+	ev = append(ev, data...)
+	out := append(append(append([]byte{}, log[:first]...), ev...), log[first:]...)
+	h := sha512.New384()
+	h.Write(make([]byte, 48))
+	h.Write(digest)
+	return out, h.Sum(nil)
+}
+
 // RunCcelCase runs rtmr.ParseCcelWithTdQuote on the sample log with a quote rebuilt under a generated PKI.
 func RunCcelCase(cs map[string]any, id int, seed int64, bits int) Result {
 	rng := rand.New(rand.NewSource(seed*86028121 + int64(id)))
@@ -94,8 +118,17 @@ func RunCcelCase(cs map[string]any, id int, seed int64, bits int) Result {
 			}
 		}
 	}
+	logBase, measured := s.log, s.measured
+	var rtmr3 []byte
+	if cs["lg"] == "withRtmr3" {
+		logBase, rtmr3 = logWithRtmr3(s.log, rng)
+		measured = []int{0, 1, 2, 3}
+	}
 	for _, bit := range variants {
 		body := append([]byte{}, sq.Body...)
+		if rtmr3 != nil {
+			copy(gen.FieldOf("body", "rtmr3", body), rtmr3)
+		}
 		if bit >= 0 {
 			reg := gen.FieldOf("body", map[string]string{"r0": "rtmr0", "r1": "rtmr1", "r2": "rtmr2", "r3": "rtmr3"}[flip], body)
 			reg[bit/8] ^= 1 << uint(bit%8)
@@ -206,7 +239,7 @@ func RunCcelCase(cs map[string]any, id int, seed int64, bits int) Result {
 			}
 			opts.Verification = vo
 		}
-		logBytes := s.log
+		logBytes := logBase
 		switch cs["lg"] {
 		case "empty":
 			logBytes = []byte{}
@@ -234,7 +267,7 @@ func RunCcelCase(cs map[string]any, id int, seed int64, bits int) Result {
 		default:
 			result = "neither"
 		}
-		res.Events = append(res.Events, Event{"ev": "Call", "case": id, "input": cs, "bit": bit, "measured": s.measured})
+		res.Events = append(res.Events, Event{"ev": "Call", "case": id, "input": cs, "bit": bit, "measured": measured})
 		if priorEv != nil {
 			res.Events = append(res.Events, priorEv)
 		}
